@@ -350,6 +350,15 @@ func runC05(p params) error {
 			add("inject-empty", base, c05Edit{Kind: "inject", Rec: rec, Type: typ, N: 0})
 		}
 	}
+	// injected records shorter than an explicit nonce / a MAC, of every content type
+	for _, typ := range []int{20, 21, 22, 23, 99} {
+		for n := 3; n <= 9; n++ {
+			if p.tier != "thorough" && (typ+n)%2 == 1 && typ != 23 {
+				continue
+			}
+			add("inject-short", base, c05Edit{Kind: "inject", Rec: 1 + n%3, Type: typ, N: n})
+		}
+	}
 	// the receiver has half-closed (CloseWrite) and keeps reading: the same attacks must end the same way
 	for i, ed := range []c05Edit{{Kind: "none"}, {Kind: "flip", Rec: 1, Off: 9, Mask: 4}, {Kind: "drop", Rec: 1}, {Kind: "dup", Rec: 0}, {Kind: "swap", Rec: 0},
 		{Kind: "inject", Rec: 1, Type: 23, N: 16}, {Kind: "inject", Rec: 2, Type: 21, N: 2}, {Kind: "trunc", At: 40}, {Kind: "flip", Rec: 3, Off: 6, Mask: 1}} {
